@@ -37,6 +37,7 @@ def main(tier):
     chk.run("R-INTRANGE", RG.intrange, cx.repo, floor=190)
     chk.run("R-INTERMEDIATE", RG.intermediate, cx.repo, floor=2)
     chk.run("R-GUARDDEPS", C.guarddeps, cx.cpp, floor=2)
+    chk.run("R-INTTEXT", C.inttext, cx.cpp, only=("buffer",), floor=25)
     chk.run("R-SUBALIGN", WN.subalign, cx.cpp, floor=2)
     chk.run("R-CLAMP", WN.clamp, cx.cpp, floor=3)
     chk.run("R-ARRAYELEM", WN.arrayelem, cx.cpp, floor=6)
